@@ -124,6 +124,10 @@ def generate_mesh(vertices, edges, cells, ne=4, **kwargs):
 
 def eid_from_vertex(earr, vbel):
     # ret = []
+    # two interfaces can join the same pair of junctions: look for the interface itself first
+    for j in range(0, len(earr)):
+        if set(earr[j]) == set(vbel):
+            return j
     for j in range(0, len(earr)):
         if len(list(set(earr[j]) & set(vbel))) >= 2:
             return j
